@@ -21,6 +21,7 @@ func c07(c *eng.Ctx, r *eng.Report) {
 		"R7.3 for wrapped Ethereum transactions the sender is recovered with an EIP-155 signer built from this chain's id at the given height, the decoded payload is the one converted, every field ConvertTx fills is compared by compareTx, and nil is returned only when the comparison holds; " +
 		"R7.4 every Transaction field read during execution is bound by GenHash or listed in the reviewed exclusion table; " +
 		"R7.5 every call of TransactionPool.AddTransaction is dominated by a successful VerifyTransaction of the same transaction (one-level inlining through sendTransaction). " +
+		"R7.7 a signature has one accepted encoding: the signature check does not rewrite the recovery byte it is given (secp256k1.checkSignature maps 27..30 onto 0..3 in place, so v and v+27 are both accepted — finding F27, recorded; any further alias is reported separately); " +
 		"R7.6 whether a transaction is authentic is a function of the transaction and the height: no cache, package-variable store or unreviewed shared object in the cone of VerifyTransaction and its steps (scratch pools that are Reset() by their taker and the type-keyed RLP codec table excepted). " +
 		"Not decided: ECDSA soundness, bit-flip rejection, acceptance of every honestly signed transaction."
 	r.Assume = []string{"secp256k1.VerifySignature / RecoverPubkey implement ECDSA over secp256k1 (libsecp256k1 via cgo)", "EIP-155 signer code in eth_tx is the upstream implementation"}
@@ -30,6 +31,7 @@ func c07(c *eng.Ctx, r *eng.Report) {
 	c07HashBinds(c, r)
 	c07Admission(c, r)
 	c07Pure(c, r)
+	c07OneSignatureEncoding(c, r)
 }
 
 // nilEdgesAt lists the call results known to be nil at instruction in (err == nil edges).
@@ -676,4 +678,43 @@ func c07Pure(c *eng.Ctx, r *eng.Report) {
 // c07SharedOK: package-level objects the verification cone may call methods on (reviewed).
 var c07SharedOK = map[string]string{
 	"global-store:storage/rlp.cachedTypeInfo1": "RLP codec table memoised per Go type and struct tags (C08 R8.7 decides its key): a hit and a miss yield the same codec",
+}
+
+// c07OneSignatureEncoding: "changing the signature of an accepted transaction
+// makes it rejected".
+func c07OneSignatureEncoding(c *eng.Ctx, r *eng.Report) {
+	const rule = "R7.7"
+	r.Min(rule, 1)
+	fn := c.Func("common/secp256k1", "checkSignature")
+	if !r.Anchor(fn != nil, rule, "secp256k1.checkSignature") {
+		return
+	}
+	sig := fn.Params[0]
+	n := 0
+	for _, b := range fn.Blocks {
+		for _, in := range b.Instrs {
+			st, ok := in.(*ssa.Store)
+			if !ok {
+				continue
+			}
+			ia, isIA := st.Addr.(*ssa.IndexAddr)
+			if !isIA || ia.X != ssa.Value(sig) {
+				continue
+			}
+			n++
+			// name the alias by the test that guards it
+			label := "unconditional"
+			for _, cd := range eng.CondsAt(st) {
+				if m, isM := cd.Cmp(); isM && strings.Contains(eng.Desc(m.X), "[") && !strings.HasPrefix(eng.Desc(m.X), "builtin:len(") {
+					if k, isK := eng.ConstInt(m.Y); isK {
+						label = fmt.Sprintf("%s%d", m.Op, k)
+					}
+				}
+			}
+			r.Fail(rule, "recid-alias:checkSignature:"+label, c.Pos(st.Pos()), "secp256k1.checkSignature rewrites byte "+eng.Desc(ia.Index)+" of the signature it checks (under `"+label+"`): two different 65-byte signatures are then accepted for the same hash and key, so the signature of an accepted transaction can be changed without the transaction being rejected")
+		}
+	}
+	if n == 0 {
+		r.Pass(rule, "recid-alias:none", c.Pos(fn.Pos()), "the signature bytes are checked as given")
+	}
 }
